@@ -80,6 +80,12 @@ def gen_value(rng, name, field, code, pv, docs):
             return rng.choice((1, 2))
         if field == 'protocol':
             return rng.choice((pv, 0, 2 ** 31 - 1))
+        if 'keep_alive' in name:
+            # the id is a *signed* VarInt on the wire; the library hands a
+            # negative one to its user as the unsigned alias and must be able
+            # to send the same five bytes back
+            return rng.choice((0, 1, 2 ** 31 - 1, 2 ** 31, 2 ** 32 - 1,
+                               2 ** 32 - 128, rng.getrandbits(32)))
         return rng.choice((0, 1, 127, 128, 255, 16383, 16384, 2097151, 2097152,
                            2 ** 28 - 1, 2 ** 28, 2 ** 31 - 1,
                            rng.getrandbits(31)))
@@ -319,7 +325,76 @@ def run(run):
             if case % 97 == 0:
                 run.sample({'pv': pv, 'packet': name, 'id': doc_id,
                             'frame': exp_frame})
+    if run.shard == 0:
+        reused_object_live(run)
+        run.require('reused_object_sessions', 3)
     run.require('frames_compared', 500)
     run.require('decodes_compared', 500)
     run.require('packets', len(ref.NAMES))
     run.require('releases', len(ref.RELEASES))
+
+
+def reused_object_live(run):
+    """One packet *object* written through several Connection objects that
+    speak different releases, one after the other: on each connection it must
+    go out with the id and layout of that connection's release."""
+    from ..probes import client as pc
+    from ..server import mcserver, scripts
+    from ..server.codec import codec_for
+    from minecraft.networking import connection as C
+    from minecraft.networking.packets import serverbound
+    rng = run.rng('c07-live')
+    chat = serverbound.play.ChatPacket(message='same object')
+    pal = serverbound.play.PositionAndLookPacket(
+        x=1.5, feet_y=64.0, z=-2.25, yaw=90.0, pitch=-10.0, on_ground=True)
+    versions = [340, 498, 47, 754, 757, 110]
+    rng.shuffle(versions)
+    for pv in versions:
+        codec = codec_for(pv)
+        got = []
+
+        def handler(io, pv=pv, codec=codec, got=got):
+            scripts.read_handshake(io)
+            scripts.login_offline(io, pv, None, codec)
+            for _ in range(2):
+                fr = io.recv_frame(8.0)
+                if fr is None:
+                    break
+                got.append((fr[0], bytes(fr[1])))
+            did, dp = codec.encode('play_disconnect', {'reason': '"bye"'})
+            io.send_frame(did, dp)
+            io.half_close()
+            io.drain(5.0)
+        server = mcserver.Server(handler)
+        rec = pc.Recorder()
+        conn = pc.make_connection(server.port, rec, allowed_versions={pv})
+        try:
+            conn.connect()
+            if not pc.wait_for(lambda: isinstance(conn.reactor,
+                                                  C.PlayingReactor), 8.0):
+                run.inconclusive_because('reused object: no play state @%d'
+                                         % pv)
+                continue
+            conn.write_packet(chat)
+            conn.write_packet(pal)
+            pc.wait_idle(conn, 15.0)
+            server.join(8.0)
+        finally:
+            server.stop()
+            pc.safe_disconnect(conn)
+        run.case(('reused-object', pv))
+        run.count('reused_object_sessions')
+        want = [ref.encode('sb_chat', pv, {'message': 'same object'}),
+                ref.encode('sb_position_look', pv, {
+                    'x': 1.5, 'feet_y': 64.0, 'z': -2.25, 'yaw': 90.0,
+                    'pitch': -10.0, 'on_ground': True})]
+        want = [(i, bytes(p_)) for i, p_ in want]
+        if got != want:
+            run.violation('live/reused-packet-object', 'a packet object that '
+                          'had already been written through another '
+                          'connection went out with ids/layout that are not '
+                          'those of this connection\'s release', {
+                              'pv': pv, 'order': versions,
+                              'got': [(i, p_[:12]) for i, p_ in got],
+                              'expected': [(i, p_[:12]) for i, p_ in want]})
+            break
